@@ -190,7 +190,10 @@ def instance(name, version, idx):
     if name == "core.org":
         return {"@id": f"https://ror.org/0{i}", "name": f"Org {i}"}
     if name == "core.dir":
-        return {"name": f"dir{i}", "description": "d" * (1 + i % 5)}
+        d = {"name": f"dir{i}", "description": "d" * (1 + i % 5)}
+        if i % 3 == 0:
+            d["author"] = [{"@id": f"https://orcid.org/0000-0000-0000-{i % 10000:04d}", "givenName": "A", "familyName": "B", "name": "A B"}]
+        return d
     if name == "core.bib":
         return {"name": f"bib{i}", "abstract": f"abstract {i}", "dateCreated": "2022-01-0" + str(1 + i % 9), "creator": {"@id": f"https://orcid.org/0000-0000-0000-{i % 10000:04d}", "givenName": "A", "familyName": "B", "name": "A B"}, "author": [{"@id": f"https://orcid.org/0000-0000-0000-{i % 10000:04d}", "givenName": "A", "familyName": "B", "name": "A B"}]}
     if name == "example.matsci.instrument":
